@@ -458,6 +458,22 @@ class Sections:
         if len(ps) != 1:
             raise Undecided('parse_line: expected exactly one parameter (the line)')
         self.line = next(iter(ps))
+        # leading pure local bindings (`error = self.Error`): single-definition names, read as their definition in every section
+        lead: T.Dict[str, ast.AST] = {}
+        stores: T.Dict[str, int] = {}
+        for n_ in ast.walk(fn):
+            if isinstance(n_, ast.Name) and isinstance(n_.ctx, (ast.Store, ast.Del)):
+                stores[n_.id] = stores.get(n_.id, 0) + 1
+        while len(body) > 1 and isinstance(body[0], (ast.Assign, ast.AnnAssign)):
+            st0 = body[0]
+            tg0 = st0.targets[0] if isinstance(st0, ast.Assign) and len(st0.targets) == 1 else (st0.target if isinstance(st0, ast.AnnAssign) else None)
+            val0 = getattr(st0, 'value', None)
+            if not (isinstance(tg0, ast.Name) and val0 is not None and stores.get(tg0.id) == 1 and tg0.id not in ps
+                    and not any(isinstance(x, (ast.Call, ast.Yield, ast.YieldFrom, ast.Await, ast.NamedExpr, ast.Lambda, ast.Subscript)) for x in ast.walk(val0))
+                    and not any(isinstance(x, ast.Attribute) and x.attr in FIELDS for x in ast.walk(val0))):
+                break           # a call / a read of a mutable parser field is not a pure alias
+            lead[tg0.id] = _Sub(dict(lead), ps).visit(_copy(val0))
+            body = body[1:]
         if len(body) != 1 or not isinstance(body[0], ast.If):
             raise Undecided('parse_line: expected one top-level `if line is not None: ... else: ...`')
         top = body[0]
@@ -485,6 +501,9 @@ class Sections:
         line_name = self.line
         fn, text = unwrap(fn, text, lambda a: len(a) == 1 and isinstance(a[0], ast.Name) and a[0].id == line_name)
         eof_fn, eof = unwrap(f.parse_line, eof, lambda a: len(a) == 0)
+        lead_text = lead if fn is f.parse_line else {}
+        lead_eof = lead if eof_fn is f.parse_line else {}
+        self.lead = lead
         self.text_fn, self.eof_fn = fn, eof_fn
         ps = param_names(fn)
         if fn is not f.parse_line:
@@ -524,7 +543,8 @@ class Sections:
         if sorted(kinds) != sorted(MAIN_KINDS):
             raise Undecided(f'parse_line: line-form sections found for {kinds}, expected one each of {list(MAIN_KINDS)}')
         self.match_exprs: T.List[T.Tuple[int, int, str, str, ast.AST]] = []
-        self.pre, pre_exit = build(fn, text[:marks[0][0]], 'parse_line[state, blank/diagnostic]', helpers=f.helper, keep_forward=('parse_test',), normal=f.normal())
+        self.pre, pre_exit = build(fn, text[:marks[0][0]], 'parse_line[state, blank/diagnostic]', dict(lead_text), helpers=f.helper, keep_forward=('parse_test',), normal=f.normal())
+        pre_exit = {**lead_text, **pre_exit}
         self.by_kind: T.Dict[str, Section] = {}
         carried: T.Dict[str, ast.AST] = {}
         for first, i, rn, var, mexpr, st in marks:
@@ -536,7 +556,7 @@ class Sections:
             tab, _ = build(fn, st.body, f'parse_line[{FORM_OF[rn]} line]', seed, helpers=f.helper, keep_forward=('parse_test',), normal=f.normal())
             self.by_kind[FORM_OF[rn]] = Section(FORM_OF[rn], rn, tab, st)
         self.post, _ = build(fn, text[marks[-1][1] + 1:], 'parse_line[unknown line]', dict(pre_exit), helpers=f.helper, normal=f.normal())
-        self.eof, _ = build(eof_fn, eof, 'parse_line[end of stream]', helpers=f.helper, normal=f.normal())
+        self.eof, _ = build(eof_fn, eof, 'parse_line[end of stream]', dict(lead_eof), helpers=f.helper, normal=f.normal())
         self.line_def = norm(pre_exit[self.line]) if self.line in pre_exit else 'ARG1'
         self.all_tables = [self.pre] + [s.table for s in self.by_kind.values()] + [self.post, self.eof]
 
